@@ -209,10 +209,21 @@ def run(ctx):
     from sa.astutil import is_inert_stmt, effective
     calls_sag = [last_attr(c) for c in calls_in(sag, nested=False)
                  if not (isinstance(c._parent, ast.Expr) and is_inert_stmt(c._parent))]
+    sag_param = sag.args.args[1].arg
+    app_calls = [c for c in calls_in(sag, nested=False) if last_attr(c) == 'append']
+    app_conds = []
+    if len(app_calls) == 1:
+        for e, pol in facts_at(app_calls[0], sag):
+            t = ('' if pol else 'not ') + norm(e)
+            if t in (sag_param, 'not not ' + sag_param, '%s is not None' % sag_param,
+                     'not %s is None' % sag_param):
+                continue        # the classifier found a group at all
+            app_conds.append(t)
     ctx.ob('C01.R3', 'setup_and_add_group:init-then-append-once',
-           calls_sag == ['init_group', 'append'],
-           'setup_and_add_group initialises the group and appends it exactly once (%s)' % calls_sag,
-           cc, sag)
+           calls_sag == ['init_group', 'append'] and not app_conds,
+           'setup_and_add_group initialises the group and appends it exactly once, whenever the '
+           'classifier returned a group - under no further condition (calls %s; conditions on the '
+           'append: %s)' % (calls_sag, app_conds), cc, app_calls[0] if app_calls else sag)
     eg = cc.func('ConformationContainer.extract_groups')
     loops = [n for n in walk_no_nested(eg) if isinstance(n, ast.For)]
     ok = False
